@@ -33,27 +33,8 @@ pub fn item_save__VAMM_LIST(storage: &mut dyn Storage, v: &Vec<Addr>) -> (r: Std
 
 // std helpers the subset does not cover (declared //@sub rewrites point here)
 #[verifier::external_body]
-pub fn vec_contains_addr(v: &Vec<Addr>, x: &Addr) -> (r: bool)
-    ensures r == v@.contains(*x),
-{ unimplemented!() }
-#[verifier::external_body]
 pub fn vec_position_of_addr(v: &Vec<Addr>, x: &Addr) -> (r: usize)
     ensures r < v@.len(), v@[r as int] == *x, forall|j: int| 0 <= j < r ==> v@[j] != *x,
-{ unimplemented!() }
-#[verifier::external_body]
-pub fn vec_swap_remove_addr(v: &mut Vec<Addr>, index: usize) -> (r: Addr)
-    ensures
-        index < old(v)@.len(), r == old(v)@[index as int],
-        final(v)@.len() == old(v)@.len() - 1,
-        forall|j: int| 0 <= j < final(v)@.len() ==> final(v)@[j] == (if j == index { old(v)@[old(v)@.len() - 1] } else { old(v)@[j] }),
-{ unimplemented!() }
-#[verifier::external_body]
-pub fn vec_prefix_addr(v: &Vec<Addr>, take: usize) -> (r: Vec<Addr>)
-    ensures take <= v@.len(), r@ == v@.subrange(0, take as int),
-{ unimplemented!() }
-#[verifier::external_body]
-pub fn min_usize(a: usize, b: usize) -> (r: usize)
-    ensures r == (if a < b { a } else { b }),
 { unimplemented!() }
 
 pub struct Admin {}
